@@ -423,10 +423,12 @@ structure SkState (α : Type) where
   count : Nat
   axes : List (SkAx α)
 
-def sketchyInit (rank : Nat) (ps : List Nat) : SkState α :=
-  ⟨0, ps.map fun d =>
-    let k := min d rank
-    ⟨d, k, zeroArr (d * k), zeroArr k, zeroArr k, 0, 0⟩⟩
+/-- `_init`: axis `a` of dimension `d` gets a sketch of rank `min d (rankOf a)`; `rankOf` is constantly `options.rank`,
+or the entry of `options.memory_alloc` for this tensor and axis -/
+def sketchyInit (rankOf : Nat → Nat) (ps : List Nat) : SkState α :=
+  ⟨0, List.zipWith (fun a d =>
+    let k := min d (rankOf a)
+    (⟨d, k, zeroArr (d * k), zeroArr k, zeroArr k, 0, 0⟩ : SkAx α)) (List.range ps.length) ps⟩
 
 /-- the external kernel `svd` (left singular vectors and singular values, see `Model/FD.lean`) -/
 abbrev SvdFn (α : Type) := (d n : Nat) → FD.Mat α d n → FD.SvdOut α d
@@ -464,11 +466,12 @@ def skApplyAxis (v : AxView) (ax : SkAx α) (x : Array α) : Array α :=
     let slc := sumRange k fun q => rd basis ((o * v.inner + r) * k + q) * rd ax.inv q * rd ax.V (b * k + q)
     slc + ax.invT * (rd x idx - lrc)
 
-/-- `sketchy.apply(options)` (defaults for `add_ggt`, `memory_alloc`, `ekfac_svd`, `linear_approx_tail`) on a leaf of
-merged shape `ps`; `pw n x = x ** (-1 / (2 n))` -/
+/-- `sketchy.apply(options)` on a leaf of merged shape `ps`; `pw n x = x ** (-1 / (2 n))`; `rankOf` as in `sketchyInit`
+(`options.rank` or `options.memory_alloc`). `add_ggt` only stores an extra statistic and does not enter the update;
+`ekfac_svd` and `linear_approx_tail` (undocumented formulas) are not modelled (defaults). -/
 def sketchyTx {P : Type} (svd : SvdFn α) (sqrt : α → α) (pw : Nat → α → α) (eps : α) (rel : Bool) (β : α)
-    (rank freq : Nat) (ps : List Nat) : Tx (SkState α) (List α) P where
-  init := fun _ => sketchyInit rank ps
+    (rankOf : Nat → Nat) (freq : Nat) (ps : List Nat) : Tx (SkState α) (List α) P where
+  init := fun _ => sketchyInit rankOf ps
   update := fun u st _ =>
     let x := u.toArray
     let views := axViews ps
